@@ -22,7 +22,7 @@ func TestMain(m *testing.M) {
 func propSeq(t *rapid.T) {
 	cfg := hist.GenConfig(t, []uint{0, 100}, false)
 	m := hist.Run(t, cfg, hist.Options{
-		Weights: map[string]int{"fund": 2, "mintquote": 6, "pay": 5, "deliver": 5, "pollmint": 4, "mint": 8, "lockedmint": 8,
+		Weights: map[string]int{"fund": 2, "mintquote": 6, "pay": 5, "deliver": 5, "pollmint": 4, "mint": 8, "mint_fault": 4, "lockedmint": 8,
 			"meltquote": 3, "melt": 3, "swap": 1, "restart": 1},
 		Owns:   []string{"C03"},
 		PropID: "C03",
